@@ -356,11 +356,19 @@ fn rebase(spec_s: &str, t: &str) -> String {
     Err(_) => return "err:json".into(),
   };
   match smd.into_iota_document(&target) {
-    Err(e) => match e {
-      identity_iota_core::Error::DIDSyntaxError(_) => "err:notIota".into(),
-      identity_iota_core::Error::InvalidDoc(_) => "err:gate".into(),
-      other => format!("err:?{:?}", other),
-    },
+    Err(e) => {
+      let line = match &e {
+        identity_iota_core::Error::DIDSyntaxError(_) => "err:notIota".to_string(),
+        identity_iota_core::Error::InvalidDoc(_) => "err:gate".to_string(),
+        other => format!("err:?{:?}", other),
+      };
+      // a document that was accepted and packed must unpack for its own DID and for any DID it does not mention
+      let ms = mentions(&spec);
+      if !ms.contains(&9) && (t == spec.id || !ms.contains(&t)) {
+        return format!("{}\t#FAIL:unpack-refused:the packed document does not unpack for {}: {:?}", line, did14(t), e);
+      }
+      line
+    }
     Ok(res) => {
       let line = format!("ok:{}", show_doc14(&res));
       let ms = mentions(&spec);
